@@ -590,13 +590,37 @@ func collectedWhenFailing(f *ssa.Function, errVal, s ssa.Value, depth int, seen 
 			}
 			return false
 		}
+		// errs = collect(errs, e...): a collector keeps every non-nil element, so it has collected
+		// whenever errVal - one of the elements - is non-nil; otherwise what the base had collected
+		if cf := x.Call.StaticCallee(); cf != nil && isErrCollector(cf) && len(x.Call.Args) >= 2 {
+			for _, el := range appendedElemsOfCall(x) {
+				if re := resolve(el); re == errVal || sameValue(re, errVal) {
+					return true
+				}
+			}
+			return collectedWhenFailing(f, errVal, x.Call.Args[0], depth+1, seen)
+		}
 	case *ssa.Phi:
 		if seen[s] {
 			return true
 		}
 		seen[s] = true
+		var defB *ssa.BasicBlock
+		if di, ok := errVal.(ssa.Instruction); ok {
+			defB = di.Block()
+		}
+		if ex, ok := errVal.(*ssa.Extract); ok {
+			if ti, ok := ex.Tuple.(ssa.Instruction); ok {
+				defB = ti.Block()
+			}
+		}
 		for i, e := range x.Edges {
-			fs := factsOnEdge(facts, x.Block().Preds[i], x.Block())
+			pb := x.Block().Preds[i]
+			// an edge that cannot follow the computation of errVal: errVal does not exist yet on it
+			if defB != nil && pb != defB && !reachesBlock(defB, pb) {
+				continue
+			}
+			fs := factsOnEdge(facts, pb, x.Block())
 			if knownNilIn(fs, errVal, true) {
 				continue
 			}
